@@ -104,6 +104,9 @@ type FS struct {
 	Root  *Node
 	Park  bool // open/read/readdir are scheduler park points
 	Short int  // >0: reads deliver at most 1..Short bytes (chosen by the scheduler)
+	// ShortBudget bounds how many reads are shortened (0 = unlimited); afterwards reads are full
+	ShortBudget int
+	shortUsed   int
 }
 
 var _ fs.FS = &FS{}
@@ -260,7 +263,8 @@ func (f *file) Read(p []byte) (int, error) {
 	limit := len(p)
 	if f.fs.Park {
 		simrt.Park("fs", "read "+f.path, func(t *simrt.Tape) string {
-			if f.fs.Short > 0 && limit > 1 {
+			if f.fs.Short > 0 && limit > 1 && (f.fs.ShortBudget == 0 || f.fs.shortUsed < f.fs.ShortBudget) {
+				f.fs.shortUsed++
 				limit = 1 + t.Choose(min(f.fs.Short, limit))
 			}
 			return ""
